@@ -27,8 +27,18 @@ abbrev History := List (Env × Msg)
 def runAll (cfg : Nat → Option Product) (s : State) (h : History) : State :=
   h.foldl (fun s em => apply cfg s em.1 em.2) s
 
-/-- messages are signed by users, and the history contains no auction settlement (see `totals_after_settlement`) -/
-def UsersOk (h : History) : Prop := ∀ em ∈ h, em.2.userOk ∧ em.2.notSettle
+/-- messages are signed by user accounts -/
+def UsersOk (h : History) : Prop := ∀ em ∈ h, em.2.userOk
+/-- the history contains no auction settlement -/
+def NoSettle (h : History) : Prop := ∀ em ∈ h, em.2.notSettle
+
+/-- offsets that only auction settlements can produce: custody, count and collateral totals stay exact; the minted
+total and the supply can only fall BELOW the recorded principal -/
+def GoodGaps (G : Gaps) : Prop :=
+  (∀ d, G.cus d = 0) ∧ G.cnt = 0 ∧ (∀ k, G.coll k = 0) ∧ (∀ k, G.mint k ≤ 0) ∧ (∀ d, G.sup d ≤ 0)
+
+theorem invG_zero (cfg : Nat → Option Product) (s : State) : InvG cfg Gaps.zero s ↔ Inv cfg s := by
+  simp [InvG, Vault.Inv, CustodyAtG, CustodyAt, CountOkG, CountOk, TotalsAtG, TotalsAt, SupplyAtG, SupplyAt, Gaps.zero]
 
 theorem init_inv (cfg : Nat → Option Product) (hc : CfgOk cfg) : Inv cfg State.init := by
   refine ⟨⟨by simp [State.init], by simp [State.init], by simp [State.init], by simp [State.init],
@@ -39,41 +49,108 @@ theorem init_inv (cfg : Nat → Option Product) (hc : CfgOk cfg) : Inv cfg State
   · simp [State.init]
   · intro k p hp; simp only [State.init]; exact (hc k p hp).2.2.2.2.2.2.2
 
-theorem apply_inv (cfg : Nat → Option Product) (hc : CfgOk cfg) (s : State) (e : Env) (m : Msg) (hm : m.userOk)
-    (hns : m.notSettle) (hinv : Inv cfg s) : Inv cfg (apply cfg s e m) := by
+/-- one message: the invariant is kept relative to offsets that stay good; only a settlement changes them -/
+theorem apply_invG (cfg : Nat → Option Product) (hc : CfgOk cfg) (G : Gaps) (s : State) (e : Env) (m : Msg)
+    (hm : m.userOk) (hinv : InvG cfg G s) (hg : GoodGaps G) :
+    ∃ G', InvG cfg G' (apply cfg s e m) ∧ GoodGaps G' ∧ (m.notSettle → G' = G) := by
   unfold apply
   cases h : step cfg s e m with
-  | none => simpa using hinv
-  | some s' => simpa using step_inv cfg hc s s' e m hm hns hinv h
+  | none => exact ⟨G, by simpa using hinv, hg, fun _ => rfl⟩
+  | some s' =>
+    by_cases hns : m.notSettle
+    · exact ⟨G, by simpa using step_inv cfg G hc s s' e m hm hns hinv h, hg, fun _ => rfl⟩
+    · cases m with
+      | settle v =>
+        simp only [step, Msg.product] at h
+        cases hf : s.locked.find? (fun x => decide (x.vaultId = v)) with
+        | none => simp [hf] at h
+        | some l0 =>
+          simp only [hf, Option.map_some] at h
+          cases hp : cfg l0.product with
+          | none => simp [hp] at h
+          | some p =>
+            simp only [hp] at h
+            split at h; · cases h
+            next hpid =>
+            simp only [Decidable.not_not] at hpid
+            simp only [stepP] at h
+            have hpc : ∀ l ∈ s.locked, l.product = p.id → cfg l.product = some p := by
+              intro l _ hlp; rw [hlp, hpid]; exact hp
+            obtain ⟨l, hl, _, hle, hinv'⟩ := settle_inv cfg G s s' p v hinv hpc h
+            obtain ⟨g1, g2, g3, g4, g5⟩ := hg
+            refine ⟨G.afterSettle p l, by simpa using hinv', ⟨g1, g2, g3, ?_, ?_⟩, fun hn => absurd hn hns⟩
+            · intro k; have := g4 k; simp only [Gaps.afterSettle]; split <;> omega
+            · intro d; have := g5 d; simp only [Gaps.afterSettle]; split <;> omega
+      | _ => exact absurd (by simp [Msg.notSettle]) hns
 
-/-- the ledger invariant holds after every history -/
-theorem inv_always (cfg : Nat → Option Product) (hc : CfgOk cfg) (h : History) (hu : UsersOk h) (s : State)
-    (hinv : Inv cfg s) : Inv cfg (runAll cfg s h) := by
-  induction h generalizing s with
-  | nil => exact hinv
+/-- the ledger invariant holds after every history, relative to offsets that only settlements move -/
+theorem invG_always (cfg : Nat → Option Product) (hc : CfgOk cfg) (h : History) (hu : UsersOk h) (G : Gaps) (s : State)
+    (hinv : InvG cfg G s) (hg : GoodGaps G) :
+    ∃ G', InvG cfg G' (runAll cfg s h) ∧ GoodGaps G' ∧ (NoSettle h → G' = G) := by
+  induction h generalizing s G with
+  | nil => exact ⟨G, hinv, hg, fun _ => rfl⟩
   | cons em t ih =>
     simp only [runAll, List.foldl_cons]
-    exact ih (fun x hx => hu x (by simp [hx])) _ (apply_inv cfg hc s em.1 em.2 (hu em (by simp)).1 (hu em (by simp)).2 hinv)
+    obtain ⟨G1, h1, g1, e1⟩ := apply_invG cfg hc G s em.1 em.2 (hu em (by simp)) hinv hg
+    obtain ⟨G2, h2, g2, e2⟩ := ih (fun x hx => hu x (by simp [hx])) G1 _ h1 g1
+    refine ⟨G2, h2, g2, fun hn => ?_⟩
+    rw [e2 (fun x hx => hn x (by simp [hx])), e1 (hn em (by simp))]
 
-/-- **Custody**: vault-module balance of every denom = collateral recorded on open + stable-mint vaults of that
-denom + coins sent there unsolicited. -/
+theorem goodGaps_zero : GoodGaps Gaps.zero := by simp [GoodGaps, Gaps.zero]
+
+/-- histories without auction settlement keep the invariant with all offsets zero -/
+theorem inv_always (cfg : Nat → Option Product) (hc : CfgOk cfg) (h : History) (hu : UsersOk h) (hn : NoSettle h) :
+    Inv cfg (runAll cfg State.init h) := by
+  obtain ⟨G', h', _, e⟩ := invG_always cfg hc h hu Gaps.zero State.init ((invG_zero cfg _).mpr (init_inv cfg hc)) goodGaps_zero
+  rw [e hn] at h'; exact (invG_zero cfg _).mp h'
+
+/-- **Custody**: after EVERY history (including liquidation seizures and auction settlements) the vault-module balance
+of every denom = collateral recorded on open + stable-mint vaults of that denom + coins sent there unsolicited. -/
 theorem custody_eq (cfg : Nat → Option Product) (hc : CfgOk cfg) (h : History) (hu : UsersOk h) (d : Nat) :
     let s := runAll cfg State.init h
-    s.bal vm d = collRecorded cfg s d + s.unsolicited d :=
-  (inv_always cfg hc h hu State.init (init_inv cfg hc)).2.2.1 d
+    s.bal vm d = collRecorded cfg s d + s.unsolicited d := by
+  obtain ⟨G', h', g, _⟩ := invG_always cfg hc h hu Gaps.zero State.init ((invG_zero cfg _).mpr (init_inv cfg hc)) goodGaps_zero
+  have := h'.2.2.1 d
+  simp only [CustodyAtG, g.1 d] at this
+  simpa using this
 
-/-- **Count**: the published vault count equals the number of open vaults. -/
+/-- **Count**: after every history the published vault count equals the number of open vaults. -/
 theorem count_eq (cfg : Nat → Option Product) (hc : CfgOk cfg) (h : History) (hu : UsersOk h) :
     let s := runAll cfg State.init h
-    s.length = s.vaults.length :=
-  (inv_always cfg hc h hu State.init (init_inv cfg hc)).2.1
+    s.length = s.vaults.length := by
+  obtain ⟨G', h', g, _⟩ := invG_always cfg hc h hu Gaps.zero State.init ((invG_zero cfg _).mpr (init_inv cfg hc)) goodGaps_zero
+  have := h'.2.1
+  simp only [CountOkG, g.2.1] at this
+  simpa using this
 
-/-- **Totals**: per product, published collateral-locked / tokens-minted = sums over open vaults, stable-mint
-vaults and vaults awaiting auction settlement. -/
-theorem totals_eq (cfg : Nat → Option Product) (hc : CfgOk cfg) (h : History) (hu : UsersOk h) (prod : Nat) :
+/-- **Totals, collateral**: after every history the published collateral-locked total of every product equals the sum
+over open, stable-mint and awaiting-auction vaults. -/
+theorem totals_coll_eq (cfg : Nat → Option Product) (hc : CfgOk cfg) (h : History) (hu : UsersOk h) (prod : Nat) :
+    let s := runAll cfg State.init h
+    s.coll prod = collOfProduct s prod := by
+  obtain ⟨G', h', g, _⟩ := invG_always cfg hc h hu Gaps.zero State.init ((invG_zero cfg _).mpr (init_inv cfg hc)) goodGaps_zero
+  have := (h'.2.2.2.1 prod).1
+  simp only [g.2.2.1 prod] at this
+  simpa using this
+
+/-- **Totals, minted**: after every history the published tokens-minted total is AT MOST the recorded principal
+(open + stable-mint + awaiting auction); it is EQUAL in histories without auction settlement (`totals_eq`). -/
+theorem totals_minted_le (cfg : Nat → Option Product) (hc : CfgOk cfg) (h : History) (hu : UsersOk h) (prod : Nat) :
+    let s := runAll cfg State.init h
+    s.minted prod ≤ mintedOfProduct s prod := by
+  obtain ⟨G', h', g, _⟩ := invG_always cfg hc h hu Gaps.zero State.init ((invG_zero cfg _).mpr (init_inv cfg hc)) goodGaps_zero
+  have := (h'.2.2.2.1 prod).2
+  have := g.2.2.2.1 prod
+  simp only at *
+  omega
+
+/-- **Totals** (partial: histories without auction settlement — see `totals_after_settlement`): per product, published
+collateral-locked / tokens-minted = sums over open vaults, stable-mint vaults and vaults awaiting auction settlement. -/
+theorem totals_eq (cfg : Nat → Option Product) (hc : CfgOk cfg) (h : History) (hu : UsersOk h) (hn : NoSettle h)
+    (prod : Nat) :
     let s := runAll cfg State.init h
     s.coll prod = collOfProduct s prod ∧ s.minted prod = mintedOfProduct s prod :=
-  (inv_always cfg hc h hu State.init (init_inv cfg hc)).2.2.2.1 prod
+  (inv_always cfg hc h hu hn).2.2.2.1 prod
 
 /-- a rejected message leaves the state untouched (message atomicity is part of the model: `apply`) -/
 theorem rejected_no_change (cfg : Nat → Option Product) (s : State) (e : Env) (m : Msg)
@@ -82,37 +159,24 @@ theorem rejected_no_change (cfg : Nat → Option Product) (s : State) (e : Env) 
 
 /-- **Auction settlement (finding D13).** When the auction of a seized vault closes, the code reduces the product's
 tokens-minted total by `TargetDebt − penalty` = principal + interest + closing fee instead of the principal that was
-added when the vault was opened. In the model: from a state satisfying the invariant, `settle` keeps the collateral
-total exact and leaves the minted total BELOW the recorded principal by exactly the interest and closing fee of the
-seized vault. Hence the totals clause is proved for histories without settlement (`totals_eq`, partial) and is false
-after a settlement of a vault that had accrued interest or a closing fee (`totals_eq_settlement_counterexample`). -/
-theorem totals_after_settlement (cfg : Nat → Option Product) (s s' : State) (vaultId : Nat) (l : LockedRec)
-    (hinv : Inv cfg s) (hnd : (s.locked.map (·.vaultId)).Nodup) (hl : l ∈ s.locked) (hid : l.vaultId = vaultId)
-    (h : settle s vaultId = some s') :
-    s'.coll l.product = collOfProduct s' l.product ∧
-    s'.minted l.product = mintedOfProduct s' l.product - (l.debt - l.amountOut) := by
-  unfold settle at h
-  cases hf : s.locked.find? (fun x => decide (x.vaultId = vaultId)) with
-  | none => simp [hf] at h
-  | some l0 =>
-    simp only [hf] at h
-    cases h
-    obtain ⟨hm0, hid0⟩ := find_mem (·.vaultId) s.locked vaultId l0 hf
-    have : l0 = l := eq_of_nodup_map (·.vaultId) s.locked hnd l0 l hm0 hl (by rw [hid0, hid])
-    subst this
-    have ht := hinv.2.2.2.1 l0.product
-    obtain ⟨hc, hmi⟩ := ht
-    have hdel : s.locked.filter (fun x => decide (x.vaultId ≠ vaultId)) = delBy (·.vaultId) s.locked l0.vaultId := by
-      simp [delBy, hid0]
-    constructor
-    · simp only [collOfProduct, upd1, hdel, if_true]
-      rw [sumBy_delBy (·.vaultId) _ s.locked l0 hnd hm0]
-      simp only [collOfProduct] at hc
-      simp; omega
-    · simp only [mintedOfProduct, upd1, hdel, if_true]
-      rw [sumBy_delBy (·.vaultId) _ s.locked l0 hnd hm0]
-      simp only [mintedOfProduct] at hmi
-      simp; omega
+added when the vault was opened. From a state satisfying the invariant, `settle` keeps the collateral total exact and
+leaves the minted total BELOW the recorded principal by exactly the interest and closing fee of the seized vault
+(`Gaps.afterSettle`). Hence the minted-totals clause is an equality only for histories without settlement (`totals_eq`,
+partial), an inequality in general (`totals_minted_le`), and the equality is false after a settlement of a vault that
+had accrued interest or a closing fee (`totals_eq_settlement_counterexample`). -/
+theorem totals_after_settlement (cfg : Nat → Option Product) (s s' : State) (p : Product) (vaultId : Nat)
+    (hinv : Inv cfg s) (hpc : ∀ l ∈ s.locked, l.product = p.id → cfg l.product = some p)
+    (h : settle s p vaultId = some s') :
+    ∃ l ∈ s.locked, l.vaultId = vaultId ∧
+      s'.coll l.product = collOfProduct s' l.product ∧
+      s'.minted l.product = mintedOfProduct s' l.product - (l.debt - l.amountOut) := by
+  obtain ⟨l, hl, hid, _, hinv'⟩ := settle_inv cfg Gaps.zero s s' p vaultId ((invG_zero cfg s).mpr hinv) hpc h
+  refine ⟨l, hl, hid, ?_, ?_⟩
+  · have := (hinv'.2.2.2.1 l.product).1
+    simpa [Gaps.afterSettle, Gaps.zero] using this
+  · have := (hinv'.2.2.2.1 l.product).2
+    simp only [Gaps.afterSettle, Gaps.zero, if_true] at this
+    omega
 
 /-! ### Non-vacuity: a concrete configuration and history that satisfies the hypotheses and exercises the clauses -/
 def demoProduct : Product :=
@@ -131,13 +195,14 @@ example : CfgOk demoCfg := by
   split at h
   · cases h; subst_vars; refine ⟨rfl, ?_⟩; simp [ProductOk, demoProduct, Dec.P]
   · cases h
-example : UsersOk demoHistory := by
-  intro em h; simp [demoHistory] at h
-  rcases h with rfl | rfl | rfl | rfl | rfl <;> simp [Msg.userOk, Msg.notSettle, vm]
+example : UsersOk demoHistory ∧ NoSettle demoHistory := by
+  constructor <;> intro em h <;> simp [demoHistory] at h <;>
+    rcases h with rfl | rfl | rfl | rfl | rfl <;> simp [Msg.userOk, Msg.notSettle, vm]
 /-- the totals clause fails after a real-shaped history: create, interest accrues, seizure, auction closes -/
 theorem totals_eq_settlement_counterexample :
     let s := runAll demoCfg State.init (demoHistory ++ [(demoEnv, .settle 1)])
-    s.vaults = [] ∧ s.locked = [] ∧ mintedOfProduct s 1 = 0 ∧ s.minted 1 = -5 := by decide
+    s.vaults = [] ∧ s.locked = [] ∧ mintedOfProduct s 1 = 0 ∧ s.minted 1 = -5 ∧ s.supply 3 = -5 + 2000000 - 2000000 + 0 := by
+  decide
 
 example : (runAll demoCfg State.init demoHistory).locked.length = 1 ∧
     (runAll demoCfg State.init demoHistory).bal vm 1 = 7 ∧
